@@ -994,6 +994,10 @@ class CallOps:
                 return dict(concrete=list(v.elems), count=None, item=None, sv=v)
             q = self.seq_of(v)
             ety = self.elem_ty(v)
+            df = v.extra.get('deepfresh') if isinstance(v.extra, dict) else None
+            if df is not None and v.kind == 'list' and v.term is not None:
+                return dict(concrete=None, count="(len %s)" % q, sv=v, seq=q,
+                            item=lambda j: self.mark_deepfresh(self.elem_unbox(v, "(at %s %s)" % (q, j), ety), df, ety, lst=v.term, idx=j))
             return dict(concrete=None, count="(len %s)" % q, item=lambda j: self.elem_unbox(v, "(at %s %s)" % (q, j), ety), sv=v, seq=q)
         if v.kind == 'str' and v.is_const:
             return dict(concrete=[self.const(c) for c in v.const], count=None, item=None)
